@@ -1,6 +1,6 @@
 /-
 Units for every kind of token, spelled trees (`STree`), and the theorem that the bytes of a
-spelled tree lex to the token sequence of its value.
+spelled tree lex to the token sequence of its value — with minimal delimiters and comments.
 -/
 import PdfVerif.Lemmas.LexUnits
 import PdfVerif.Lemmas.StackParser
@@ -8,54 +8,98 @@ import PdfVerif.Lemmas.StackParser
 namespace PdfVerif.Lexer
 open PdfVerif PdfVerif.Gen.LexTables
 
-theorem gap_end_number (g : UInt8) (hg : isGapByte g = true) : isEND_NUMBER g = true ∧ g ≠ 46 := by
-  have hf := gap_facts g
+theorem dw_end_number (g : UInt8) (hg : isDW g = true) : isEND_NUMBER g = true ∧ g ≠ 46 := by
+  have hf := dw_facts g
   simp only [hg, Bool.not_true, Bool.false_or, Bool.and_eq_true, bne_iff_ne, ne_eq] at hf
-  exact ⟨hf.1.1.1.1.1.2, hf.1.1.1.1.2⟩
+  exact ⟨hf.1.1.1.1, hf.1.1.1.2⟩
 
-theorem gap_end_literal (g : UInt8) (hg : isGapByte g = true) : isEND_LITERAL g = true ∧ g ≠ 35 := by
-  have hf := gap_facts g
+theorem dw_end_literal (g : UInt8) (hg : isDW g = true) : isEND_LITERAL g = true ∧ g ≠ 35 := by
+  have hf := dw_facts g
   simp only [hg, Bool.not_true, Bool.false_or, Bool.and_eq_true, bne_iff_ne, ne_eq] at hf
-  exact ⟨hf.1.1.1.2, hf.1.1.2⟩
+  exact ⟨hf.1.1.2, hf.1.2⟩
 
-theorem gap_end_keyword (g : UInt8) (hg : isGapByte g = true) : isEND_KEYWORD g = true ∧ g ≠ 62 := by
-  have hf := gap_facts g
+theorem dw_end_keyword (g : UInt8) (hg : isDW g = true) : isEND_KEYWORD g = true := by
+  have hf := dw_facts g
   simp only [hg, Bool.not_true, Bool.false_or, Bool.and_eq_true, bne_iff_ne, ne_eq] at hf
-  exact ⟨hf.1.2, hf.2⟩
+  exact hf.2
 
-theorem unit_int (sign ds : Bytes) (g : UInt8) (hg : isGapByte g = true)
+/-- `of_main` for a unit given as a list whose first byte is not `>` -/
+theorem LexUnit.of_main_list {s : Bytes} {ts : List Token} {reg : Bool} (h0 : s.headD 62 ≠ 62)
+    (h : ∀ (st : St) (d : UInt8) (rest : Bytes) (pos : Nat), st.mode = .main → (reg = true → isDW d = true) →
+      ∃ st', HO st' ∧ tokVals (foldBytes st (s ++ d :: rest) pos).2 =
+        ts ++ tokVals (foldBytes st' (d :: rest) (pos + s.length)).2) :
+    LexUnit s ts reg := by
+  cases s with
+  | nil => simp at h0
+  | cons b tl => exact LexUnit.of_main (by simpa using h0) h
+
+/-- a regular-run token described by "emits `t` at its position, continues in the main scanner at `d`" -/
+theorem LexUnit.of_token {s : Bytes} {t : Token} (h0 : s.headD 62 ≠ 62)
+    (h : ∀ (st : St) (d : UInt8) (rest : Bytes) (pos : Nat), st.mode = .main → isDW d = true →
+      ∃ st', st'.mode = .main ∧
+        (foldBytes st (s ++ d :: rest) pos).2 = (pos, t) :: (foldBytes st' (d :: rest) (pos + s.length)).2) :
+    LexUnit s [t] true := by
+  apply LexUnit.of_main_list h0
+  intro st d rest pos hm hd
+  obtain ⟨st', hm', e⟩ := h st d rest pos hm (hd rfl)
+  exact ⟨st', Or.inl hm', by rw [e]; simp [tokVals]⟩
+
+theorem digit_ne_62 (c : UInt8) (h : isDigit c = true) : c ≠ 62 := by
+  intro e; subst e; revert h; decide
+
+theorem head_sign_digits (sign ds : Bytes) (tail : Bytes) (hs : sign = [] ∨ sign = [43] ∨ sign = [45])
+    (hd : ∀ c ∈ ds, isDigit c = true) (ht : tail.headD 0 ≠ 62) (htn : tail ≠ []) :
+    (sign ++ ds ++ tail).headD 62 ≠ 62 := by
+  rcases hs with rfl | rfl | rfl
+  · cases ds with
+    | nil => cases tail with
+      | nil => exact absurd rfl htn
+      | cons b t => simpa using ht
+    | cons c t => simpa using digit_ne_62 c (hd c (by simp))
+  · simp
+  · simp
+
+theorem unit_int (sign ds : Bytes)
     (hs : sign = [] ∨ sign = [43] ∨ sign = [45]) (hne : ds ≠ []) (hd : ∀ c ∈ ds, isDigit c = true)
-    (hlen : ds.length ≤ 4300) : LexUnit (sign ++ ds ++ [g]) [Token.int (intValue sign ds)] := by
-  apply LexUnit.of_token g hg
-  intro st rest pos hm
+    (hlen : ds.length ≤ 4300) : LexUnit (sign ++ ds) [Token.int (intValue sign ds)] true := by
+  have h0 : (sign ++ ds).headD 62 ≠ 62 := by
+    cases ds with
+    | nil => exact absurd rfl hne
+    | cons c t =>
+      have := head_sign_digits sign [] (c :: t) hs (by simp) (by simpa using digit_ne_62 c (hd c (by simp))) (by simp)
+      simpa using this
+  apply LexUnit.of_token h0
+  intro st d rest pos hm hdw
   refine ⟨{ st with tpos := pos, cur := sign ++ ds, mode := .main }, rfl, ?_⟩
-  have he := gap_end_number g hg
+  have he := dw_end_number d hdw
   rw [foldBytes_append, int_spelling_pending st hm sign ds pos hs hne hd]
   simp only [foldBytes, List.nil_append]
-  rw [number_end _ g _ (intValue sign ds) rfl he.1 he.2 (pyInt_spelling sign ds hs hne hd hlen)]
+  rw [number_end _ d _ (intValue sign ds) rfl he.1 he.2 (pyInt_spelling sign ds hs hne hd hlen)]
   simp
 
-theorem unit_real (sign ip fp : Bytes) (g : UInt8) (hg : isGapByte g = true)
+theorem unit_real (sign ip fp : Bytes)
     (hs : sign = [] ∨ sign = [43] ∨ sign = [45]) (hip : ∀ c ∈ ip, isDigit c = true)
     (hfp : ∀ c ∈ fp, isDigit c = true) (hne : ¬ (ip = [] ∧ fp = [])) :
-    LexUnit ((sign ++ ip ++ 46 :: fp) ++ [g]) [Token.real (sign ++ ip ++ 46 :: fp)] := by
-  apply LexUnit.of_token g hg
-  intro st rest pos hm
+    LexUnit (sign ++ ip ++ 46 :: fp) [Token.real (sign ++ ip ++ 46 :: fp)] true := by
+  have h0 : (sign ++ ip ++ 46 :: fp).headD 62 ≠ 62 :=
+    head_sign_digits sign ip (46 :: fp) hs hip (by simp) (by simp)
+  apply LexUnit.of_token h0
+  intro st d rest pos hm hdw
   refine ⟨{ st with tpos := pos, cur := sign ++ ip ++ 46 :: fp, mode := .main }, rfl, ?_⟩
-  have he := gap_end_number g hg
+  have he := dw_end_number d hdw
   rw [foldBytes_append, real_spelling_pending st hm sign ip fp pos hs hip hfp]
   simp only [foldBytes, List.nil_append]
-  rw [float_end _ g _ rfl he.1 (pyFloatOk_spelling sign ip fp hs hip hfp hne)]
+  rw [float_end _ d _ rfl he.1 (pyFloatOk_spelling sign ip fp hs hip hfp hne)]
   simp
 
-theorem unit_name (items : List NameItem) (g : UInt8) (hg : isGapByte g = true) (hok : ∀ i ∈ items, i.ok) :
-    LexUnit ((47 :: renderName items) ++ [g]) [Token.lit (nameValue items)] := by
-  apply LexUnit.of_token g hg
-  intro st rest pos hm
-  have he := gap_end_literal g hg
+theorem unit_name (items : List NameItem) (hok : ∀ i ∈ items, i.ok) :
+    LexUnit (47 :: renderName items) [Token.lit (nameValue items)] true := by
+  apply LexUnit.of_token (by simp)
+  intro st d rest pos hm hdw
+  have he := dw_end_literal d hdw
   obtain ⟨s1, hp1, hs1⟩ := main_name_start st pos hm
   obtain ⟨s2, hp2, hs2⟩ := name_items_fold items [] pos s1 (pos + 1) hp1 hok
-  obtain ⟨s3, hm3, hs3⟩ := name_end _ pos s2 g (pos + 1 + (renderName items).length) hp2 he.1 he.2
+  obtain ⟨s3, hm3, hs3⟩ := name_end _ pos s2 d (pos + 1 + (renderName items).length) hp2 he.1 he.2
   refine ⟨s3, hm3, ?_⟩
   simp only [List.cons_append, foldBytes, hs1, List.nil_append]
   rw [foldBytes_append, hs2]
@@ -63,16 +107,18 @@ theorem unit_name (items : List NameItem) (g : UInt8) (hg : isGapByte g = true) 
   have e : pos + 1 + (renderName items).length = pos + ((renderName items).length + 1) := by omega
   simp [e]
 
+theorem alpha_ne_62 (c : UInt8) (h : isAlpha c = true) : c ≠ 62 := by
+  intro e; subst e; revert h; decide
+
 /-- a keyword word: letters only -/
-theorem unit_keyword (c : UInt8) (w : Bytes) (g : UInt8) (hg : isGapByte g = true)
-    (hc : isAlpha c = true) (hw : ∀ x ∈ w, isAlpha x = true) :
-    LexUnit ((c :: w) ++ [g])
+theorem unit_keyword (c : UInt8) (w : Bytes) (hc : isAlpha c = true) (hw : ∀ x ∈ w, isAlpha x = true) :
+    LexUnit (c :: w)
       [if (c :: w) == kwTrue then Token.bool true else if (c :: w) == kwFalse then Token.bool false
-       else Token.kwd (c :: w)] := by
-  apply LexUnit.of_token g hg
-  intro st rest pos hm
-  have he := gap_end_keyword g hg
-  have hk := keyword_spelling st hm c w g pos hc hw he.1
+       else Token.kwd (c :: w)] true := by
+  apply LexUnit.of_token (by simpa using alpha_ne_62 c hc)
+  intro st d rest pos hm hdw
+  have he := dw_end_keyword d hdw
+  have hk := keyword_spelling st hm c w d pos hc hw he
   refine ⟨{ st with tpos := pos, cur := c :: w, mode := .main }, rfl, ?_⟩
   rw [foldBytes_append]
   obtain ⟨hk1, hk2⟩ := hk
@@ -82,35 +128,32 @@ theorem unit_keyword (c : UInt8) (w : Bytes) (g : UInt8) (hg : isGapByte g = tru
 
 theorem unit_string (items : List StrItem) (hok : ∀ i ∈ items, i.ok) (hch : chainOK items)
     (hbal : depthAfter 0 items = some 0) :
-    LexUnit (40 :: renderStr items ++ [41]) [Token.str (strValue items)] := by
-  apply LexUnit.of_fold
+    LexUnit (40 :: (renderStr items ++ [41])) [Token.str (strValue items)] false := by
+  apply LexUnit.of_fold (by decide)
   intro st pos hm
   obtain ⟨s1, hs1, hf1⟩ := main_string_start st pos hm
   have hn1 : NextOK s1 ((renderStr items ++ [41]).headD 41) := nextOK_string _ _ hs1.1
   obtain ⟨s2, hp2, hn2, hf2⟩ := str_items_fold items [] 0 pos s1 (pos + 1) 0 (settled_pending hs1) hn1 hok hch hbal
   obtain ⟨s3, hm3, hf3⟩ := str_end _ pos s2 (pos + 1 + (renderStr items).length) hp2 hn2
-  refine ⟨s3, hm3, ?_, ?_⟩
-  · simp only [List.cons_append, foldBytes, hf1]
+  refine ⟨s3, Or.inl hm3, ?_, ?_⟩
+  · simp only [foldBytes, hf1]
     rw [foldBytes_append, hf2]
     simp [foldBytes, hf3]
-  · simp only [List.cons_append, foldBytes, hf1, List.nil_append]
+  · simp only [foldBytes, hf1, List.nil_append]
     rw [foldBytes_append, hf2]
     simp [foldBytes, hf3, tokVals]
 
 def hexDigitsOf (body : Bytes) : Bytes := body.filter (fun c => !isSPC c)
 
-theorem unit_hex (body : Bytes) (n : Nat) (g : UInt8) (hg : isGapByte g = true)
+/-- ends in `_parse_wclose` (a hand-over state) -/
+theorem unit_hex (body : Bytes) (n : Nat)
     (hb : ∀ c ∈ body, isHEX c = true ∨ isSPC c = true) (heven : (hexDigitsOf body).length = 2 * n) :
-    LexUnit ((60 :: body ++ [62]) ++ [g]) [Token.str (pairUp (hexDigitsOf body))] := by
-  apply LexUnit.of_token g hg
-  intro st rest pos hm
-  have he := gap_end_keyword g hg
-  have hg62 : (g == 62) = false := by simpa using he.2
-  refine ⟨{ st with tpos := pos + 1 + body.length, cur := [], mode := .main }, rfl, ?_⟩
-  rw [foldBytes_append, hex_spelling st hm body pos n hb heven]
-  simp only [foldBytes]
-  rw [step_hit _ g _ (Or.inl (by simp [searchClass]))]
-  simp [atHit, parseWcloseHit, hg62, hexDigitsOf]
+    LexUnit (60 :: (body ++ [62])) [Token.str (pairUp (hexDigitsOf body))] false := by
+  apply LexUnit.of_fold (by decide)
+  intro st pos hm
+  have h := hex_spelling st hm body pos n hb heven
+  simp only [List.cons_append] at h
+  exact ⟨_, Or.inr rfl, by rw [h], by rw [h]; simp [tokVals, hexDigitsOf]⟩
 
 end PdfVerif.Lexer
 
@@ -118,43 +161,43 @@ namespace PdfVerif.Roundtrip
 open PdfVerif PdfVerif.Lexer PdfVerif.StackParser PdfVerif.Gen.LexTables
 
 /-- A tree together with ONE conformant way of writing it: every token carries its spelling choice
-    and the white space that follows it. -/
+    and the separator (white space and comments, possibly none) that follows it. -/
 inductive STree where
-  | null (g : Bytes)
-  | bool (b : Bool) (g : Bytes)
-  | int (sign ds : Bytes) (g : Bytes)
-  | real (sign ip fp : Bytes) (g : Bytes)
-  | name (items : List NameItem) (g : Bytes)
-  | str (items : List StrItem) (g : Bytes)
-  | hex (body : Bytes) (g : Bytes)
-  | ref (ds g1 zs g2 g3 : Bytes)                       -- `ds g1 zs g2 R g3`, `zs` spells generation 0
-  | arr (g0 : Bytes) (items : List STree) (g1 : Bytes)
-  | dict (g0 : Bytes) (entries : List (List NameItem × Bytes × STree)) (g1 : Bytes)
+  | null (g : List SepItem)
+  | bool (b : Bool) (g : List SepItem)
+  | int (sign ds : Bytes) (g : List SepItem)
+  | real (sign ip fp : Bytes) (g : List SepItem)
+  | name (items : List NameItem) (g : List SepItem)
+  | str (items : List StrItem) (g : List SepItem)
+  | hex (body : Bytes) (g : List SepItem)
+  | ref (ds : Bytes) (g1 : List SepItem) (gs : Bytes) (g2 g3 : List SepItem)      -- `ds g1 gs g2 R g3`
+  | arr (g0 : List SepItem) (items : List STree) (g1 : List SepItem)
+  | dict (g0 : List SepItem) (entries : List (List NameItem × List SepItem × STree)) (g1 : List SepItem)
 
 def wNull : Bytes := [110, 117, 108, 108]
 
 mutual
 def bytesOf : STree → Bytes
-  | .null g => wNull ++ g
-  | .bool b g => (if b then kwTrue else kwFalse) ++ g
-  | .int sign ds g => sign ++ ds ++ g
-  | .real sign ip fp g => (sign ++ ip ++ 46 :: fp) ++ g
-  | .name items g => (47 :: renderName items) ++ g
-  | .str items g => (40 :: renderStr items ++ [41]) ++ g
-  | .hex body g => (60 :: body ++ [62]) ++ g
-  | .ref ds g1 zs g2 g3 => (ds ++ g1) ++ ((zs ++ g2) ++ ([82] ++ g3))
-  | .arr g0 items g1 => ([91] ++ g0) ++ (bytesList items ++ ([93] ++ g1))
-  | .dict g0 es g1 => ([60, 60] ++ g0) ++ (bytesEntries es ++ ([62, 62] ++ g1))
+  | .null g => wNull ++ renderSep g
+  | .bool b g => (if b then kwTrue else kwFalse) ++ renderSep g
+  | .int sign ds g => (sign ++ ds) ++ renderSep g
+  | .real sign ip fp g => (sign ++ ip ++ 46 :: fp) ++ renderSep g
+  | .name items g => (47 :: renderName items) ++ renderSep g
+  | .str items g => (40 :: (renderStr items ++ [41])) ++ renderSep g
+  | .hex body g => (60 :: (body ++ [62])) ++ renderSep g
+  | .ref ds g1 gs g2 g3 => (ds ++ renderSep g1) ++ ((gs ++ renderSep g2) ++ ([82] ++ renderSep g3))
+  | .arr g0 items g1 => ([91] ++ renderSep g0) ++ (bytesList items ++ ([93] ++ renderSep g1))
+  | .dict g0 es g1 => ([60, 60] ++ renderSep g0) ++ (bytesEntries es ++ ([62, 62] ++ renderSep g1))
 def bytesList : List STree → Bytes
   | [] => []
   | t :: r => bytesOf t ++ bytesList r
-def bytesEntries : List (List NameItem × Bytes × STree) → Bytes
+def bytesEntries : List (List NameItem × List SepItem × STree) → Bytes
   | [] => []
-  | (k, g, v) :: r => ((47 :: renderName k) ++ g) ++ (bytesOf v ++ bytesEntries r)
+  | (k, g, v) :: r => ((47 :: renderName k) ++ renderSep g) ++ (bytesOf v ++ bytesEntries r)
 end
 
 mutual
-def valueOf : STree → SObj
+def valueOf : STree → PObj
   | .null _ => .null
   | .bool b _ => .bool b
   | .int sign ds _ => .int (intValue sign ds)
@@ -162,56 +205,88 @@ def valueOf : STree → SObj
   | .name items _ => .lit (nameValue items)
   | .str items _ => .str (strValue items)
   | .hex body _ => .str (pairUp (hexDigitsOf body))
-  | .ref ds _ _ _ _ => .ref (intValue [] ds)
+  | .ref ds _ gs _ _ => .ref (intValue [] ds) (intValue [] gs)
   | .arr _ items _ => .arr (valueList items)
   | .dict _ es _ => .dict (valueEntries es)
-def valueList : List STree → List SObj
+def valueList : List STree → List PObj
   | [] => []
   | t :: r => valueOf t :: valueList r
-def valueEntries : List (List NameItem × Bytes × STree) → List (Bytes × SObj)
+def valueEntries : List (List NameItem × List SepItem × STree) → List (Bytes × PObj)
   | [] => []
   | (k, _, v) :: r => (nameValue k, valueOf v) :: valueEntries r
 end
 
-def gapAny (g : Bytes) : Prop := ∀ c ∈ g, isGapByte c = true
-def gapNE (g : Bytes) : Prop := g ≠ [] ∧ gapAny g
+/-- does the spelling end in a run of regular characters with nothing after it (so that the next byte
+    must be white space or a delimiter)? -/
+def endsReg : STree → Bool
+  | .null g => g.isEmpty
+  | .bool _ g => g.isEmpty
+  | .int _ _ g => g.isEmpty
+  | .real _ _ _ g => g.isEmpty
+  | .name _ g => g.isEmpty
+  | .ref _ _ _ _ g3 => g3.isEmpty
+  | _ => false
+
 def digitsOK (ds : Bytes) : Prop := ds ≠ [] ∧ (∀ c ∈ ds, isDigit c = true) ∧ ds.length ≤ 4300
 def signOK (sign : Bytes) : Prop := sign = [] ∨ sign = [43] ∨ sign = [45]
 
+theorem gap_spc : ∀ c : UInt8, (!isGapByte c || isSPC c) = true := forall_byte _ (by decide +kernel)
+
+/-- `#00` is not allowed in a name (7.3.5) -/
+def NameItem.nonzero : NameItem → Prop
+  | .raw _ => True
+  | .esc h l => hexCharVal h * 16 + hexCharVal l ≠ 0
+
+def nameOK (items : List NameItem) : Prop := ∀ i ∈ items, i.ok ∧ NameItem.nonzero i
+
 mutual
-/-- the spelling choices are conformant (and inside the proved domain: at least one white-space byte
-    after every token that is not self-delimiting, even hex digit count, distinct UTF-8 keys) -/
-def wf : STree → Prop
-  | .null g => gapNE g
-  | .bool _ g => gapNE g
-  | .int sign ds g => signOK sign ∧ digitsOK ds ∧ gapNE g
+/-- the spelling choices are conformant (ISO 32000-1 7.2–7.3): separators are white space / comments;
+    where a separator is empty after a regular-character token, a delimiter follows (checked between
+    neighbours); names without `#00`; hex strings of hex digits and white space; distinct UTF-8 keys.
+    `even = true` adds: even hex digit count (the domain of the tokenizer theorems, open finding). -/
+def wfE (even : Bool) : STree → Prop
+  | .null g => sepOK g
+  | .bool _ g => sepOK g
+  | .int sign ds g => signOK sign ∧ digitsOK ds ∧ sepOK g
   | .real sign ip fp g => signOK sign ∧ (∀ c ∈ ip, isDigit c = true) ∧ (∀ c ∈ fp, isDigit c = true) ∧
-      ¬ (ip = [] ∧ fp = []) ∧ gapNE g
-  | .name items g => (∀ i ∈ items, i.ok) ∧ gapNE g
-  | .str items g => (∀ i ∈ items, i.ok) ∧ chainOK items ∧ depthAfter 0 items = some 0 ∧ gapAny g
-  | .hex body g => (∀ c ∈ body, isHEX c = true ∨ isSPC c = true) ∧ (∃ n, (hexDigitsOf body).length = 2 * n) ∧ gapNE g
-  | .ref ds g1 zs g2 g3 => digitsOK ds ∧ gapNE g1 ∧ digitsOK zs ∧ intValue [] zs = 0 ∧ gapNE g2 ∧ gapNE g3
-  | .arr g0 items g1 => gapAny g0 ∧ wfList items ∧ gapAny g1
-  | .dict g0 es g1 => gapAny g0 ∧ wfEntries es ∧ gapAny g1 ∧
+      ¬ (ip = [] ∧ fp = []) ∧ sepOK g
+  | .name items g => nameOK items ∧ sepOK g
+  | .str items g => (∀ i ∈ items, i.ok) ∧ chainOK items ∧ depthAfter 0 items = some 0 ∧ sepOK g
+  | .hex body g => (∀ c ∈ body, isHEX c = true ∨ isGapByte c = true) ∧
+      (even = true → ∃ n, (hexDigitsOf body).length = 2 * n) ∧ sepOK g
+  | .ref ds g1 gs g2 g3 => digitsOK ds ∧ sepOK g1 ∧ g1 ≠ [] ∧ digitsOK gs ∧ sepOK g2 ∧ g2 ≠ [] ∧ sepOK g3
+  | .arr g0 items g1 => sepOK g0 ∧ wfListE even items ∧ sepOK g1
+  | .dict g0 es g1 => sepOK g0 ∧ wfEntriesE even es ∧ sepOK g1 ∧
       (keysOf (valueEntries es)).Nodup ∧ ∀ k ∈ keysOf (valueEntries es), utf8Valid k = true
-def wfList : List STree → Prop
+def wfListE (even : Bool) : List STree → Prop
   | [] => True
-  | t :: r => wf t ∧ wfList r
-def wfEntries : List (List NameItem × Bytes × STree) → Prop
+  | t :: r => wfE even t ∧ wfListE even r ∧
+      (endsReg t = true → r ≠ [] → ∀ rest, isDW ((bytesList r ++ rest).headD 0) = true)
+def wfEntriesE (even : Bool) : List (List NameItem × List SepItem × STree) → Prop
   | [] => True
-  | (k, g, v) :: r => (∀ i ∈ k, i.ok) ∧ gapNE g ∧ wf v ∧ wfEntries r
+  | (k, g, v) :: r => nameOK k ∧ sepOK g ∧ (g = [] → ∀ rest, isDW ((bytesOf v ++ rest).headD 0) = true) ∧
+      wfE even v ∧ wfEntriesE even r
 end
 
-theorem unit_with_gap {s : Bytes} {ts : List Token}
-    (h : ∀ g0, isGapByte g0 = true → LexUnit (s ++ [g0]) ts) (g : Bytes) (hg : gapNE g) : LexUnit (s ++ g) ts := by
-  obtain ⟨hne, hall⟩ := hg
+/-- conformant and inside the domain of the tokenizer theorems -/
+abbrev wf := wfE true
+abbrev wfList := wfListE true
+abbrev wfEntries := wfEntriesE true
+
+/-- a regular-run token followed by its separator -/
+theorem tok_sep {s : Bytes} {ts : List Token} (h : LexUnit s ts true) (g : List SepItem) (hg : sepOK g) :
+    LexUnit (s ++ renderSep g) ts g.isEmpty := by
   cases g with
-  | nil => exact absurd rfl hne
-  | cons g0 gt =>
-    have h1 := h g0 (hall g0 (by simp))
-    have h2 := LexUnit.gap gt (fun x hx => hall x (by simp [hx]))
-    have := LexUnit.append h1 h2
+  | nil => simpa [renderSep] using h
+  | cons i r =>
+    have h2 := LexUnit.sep (i :: r) hg
+    have := LexUnit.append h h2 (fun _ d _ => sep_head_dw (i :: r) hg (by simp) [d])
     simpa using this
+
+/-- a self-delimiting token followed by its separator -/
+theorem free_sep {s : Bytes} {ts : List Token} (h : LexUnit s ts false) (g : List SepItem) (hg : sepOK g) :
+    LexUnit (s ++ renderSep g) ts false := by
+  simpa using LexUnit.append_free h (LexUnit.sep g hg)
 
 theorem alpha_null : isAlpha 110 = true ∧ ∀ x ∈ ([117, 108, 108] : Bytes), isAlpha x = true := by
   refine ⟨by decide, ?_⟩; intro x hx; simp at hx; rcases hx with rfl | rfl | rfl <;> decide
@@ -220,109 +295,144 @@ theorem alpha_true : isAlpha 116 = true ∧ ∀ x ∈ ([114, 117, 101] : Bytes),
 theorem alpha_false : isAlpha 102 = true ∧ ∀ x ∈ ([97, 108, 115, 101] : Bytes), isAlpha x = true := by
   refine ⟨by decide, ?_⟩; intro x hx; simp at hx; rcases hx with rfl | rfl | rfl | rfl <;> decide
 
-theorem unit_R (g0 : UInt8) (hg : isGapByte g0 = true) : LexUnit ([82] ++ [g0]) [Token.kwd kwR] := by
-  have := unit_keyword 82 [] g0 hg (by decide) (by simp)
+theorem unit_R : LexUnit [82] [Token.kwd kwR] true := by
+  have := unit_keyword 82 [] (by decide) (by simp)
   simpa [kwTrue, kwFalse, kwR] using this
 
+theorem isEmpty_false {α} {l : List α} (h : l ≠ []) : l.isEmpty = false := by
+  cases l with
+  | nil => exact absurd rfl h
+  | cons _ _ => rfl
+
 mutual
-/-- The bytes of a well-formed spelled tree lex (from the main scanner, whatever follows) to the
+/-- The bytes of a well-formed spelled tree lex (from any hand-over state, whatever follows) to the
     token sequence of its value. -/
-theorem lex_tree : ∀ (t : STree), wf t → LexUnit (bytesOf t) (ser (valueOf t))
+theorem lex_tree : ∀ (t : STree), wf t → LexUnit (bytesOf t) (ser (valueOf t)) (endsReg t)
   | .null g, h => by
-    simp only [wf] at h
-    simp only [bytesOf, valueOf, ser]
-    refine unit_with_gap (fun g0 hg0 => ?_) g h
-    have := unit_keyword 110 [117, 108, 108] g0 hg0 alpha_null.1 alpha_null.2
-    simpa [kwTrue, kwFalse, wNull, StackParser.kwNull] using this
+    simp only [wf, wfE] at h
+    simp only [bytesOf, valueOf, ser, endsReg]
+    have := unit_keyword 110 [117, 108, 108] alpha_null.1 alpha_null.2
+    have u : LexUnit wNull [Token.kwd StackParser.kwNull] true := by
+      simpa [kwTrue, kwFalse, wNull, StackParser.kwNull] using this
+    exact tok_sep u g h
   | .bool b g, h => by
-    simp only [wf] at h
-    simp only [bytesOf, valueOf, ser]
-    refine unit_with_gap (fun g0 hg0 => ?_) g h
+    simp only [wf, wfE] at h
+    simp only [bytesOf, valueOf, ser, endsReg]
     cases b with
     | true =>
-      have := unit_keyword 116 [114, 117, 101] g0 hg0 alpha_true.1 alpha_true.2
-      simpa [kwTrue, kwFalse] using this
+      have := unit_keyword 116 [114, 117, 101] alpha_true.1 alpha_true.2
+      have u : LexUnit kwTrue [Token.bool true] true := by simpa [kwTrue, kwFalse] using this
+      simpa using tok_sep u g h
     | false =>
-      have := unit_keyword 102 [97, 108, 115, 101] g0 hg0 alpha_false.1 alpha_false.2
-      simpa [kwTrue, kwFalse] using this
+      have := unit_keyword 102 [97, 108, 115, 101] alpha_false.1 alpha_false.2
+      have u : LexUnit kwFalse [Token.bool false] true := by simpa [kwTrue, kwFalse] using this
+      simpa using tok_sep u g h
   | .int sign ds g, h => by
-    simp only [wf] at h
+    simp only [wf, wfE] at h
     obtain ⟨hs, ⟨hne, hd, hlen⟩, hg⟩ := h
-    simp only [bytesOf, valueOf, ser]
-    exact unit_with_gap (fun g0 hg0 => unit_int sign ds g0 hg0 hs hne hd hlen) g hg
+    simp only [bytesOf, valueOf, ser, endsReg]
+    exact tok_sep (unit_int sign ds hs hne hd hlen) g hg
   | .real sign ip fp g, h => by
-    simp only [wf] at h
+    simp only [wf, wfE] at h
     obtain ⟨hs, hip, hfp, hne, hg⟩ := h
-    simp only [bytesOf, valueOf, ser]
-    exact unit_with_gap (fun g0 hg0 => unit_real sign ip fp g0 hg0 hs hip hfp hne) g hg
+    simp only [bytesOf, valueOf, ser, endsReg]
+    exact tok_sep (unit_real sign ip fp hs hip hfp hne) g hg
   | .name items g, h => by
-    simp only [wf] at h
-    simp only [bytesOf, valueOf, ser]
-    exact unit_with_gap (fun g0 hg0 => unit_name items g0 hg0 h.1) g h.2
+    simp only [wf, wfE] at h
+    simp only [bytesOf, valueOf, ser, endsReg]
+    exact tok_sep (unit_name items (fun i hi => (h.1 i hi).1)) g h.2
   | .str items g, h => by
-    simp only [wf] at h
+    simp only [wf, wfE] at h
     obtain ⟨hok, hch, hbal, hg⟩ := h
-    simp only [bytesOf, valueOf, ser]
-    have := LexUnit.append (unit_string items hok hch hbal) (LexUnit.gap g hg)
-    simpa using this
+    simp only [bytesOf, valueOf, ser, endsReg]
+    exact free_sep (unit_string items hok hch hbal) g hg
   | .hex body g, h => by
-    simp only [wf] at h
-    obtain ⟨hb, ⟨n, hn⟩, hg⟩ := h
-    simp only [bytesOf, valueOf, ser]
-    exact unit_with_gap (fun g0 hg0 => unit_hex body n g0 hg0 hb hn) g hg
-  | .ref ds g1 zs g2 g3, h => by
-    simp only [wf] at h
-    obtain ⟨⟨hne1, hd1, hl1⟩, hg1, ⟨hne2, hd2, hl2⟩, hz, hg2, hg3⟩ := h
-    simp only [bytesOf, valueOf, ser]
-    have u1 : LexUnit (ds ++ g1) [Token.int (intValue [] ds)] := by
-      have := unit_with_gap (fun g0 hg0 => unit_int [] ds g0 hg0 (Or.inl rfl) hne1 hd1 hl1) g1 hg1
+    simp only [wf, wfE] at h
+    obtain ⟨hb, hev, hg⟩ := h
+    obtain ⟨n, hn⟩ := hev trivial
+    simp only [bytesOf, valueOf, ser, endsReg]
+    have hb' : ∀ c ∈ body, isHEX c = true ∨ isSPC c = true := by
+      intro c hc
+      rcases hb c hc with h | h
+      · exact Or.inl h
+      · have := gap_spc c; simp [h] at this; exact Or.inr this
+    exact free_sep (unit_hex body n hb' hn) g hg
+  | .ref ds g1 gs g2 g3, h => by
+    simp only [wf, wfE] at h
+    obtain ⟨⟨hne1, hd1, hl1⟩, hg1, hg1n, ⟨hne2, hd2, hl2⟩, hg2, hg2n, hg3⟩ := h
+    simp only [bytesOf, valueOf, ser, endsReg]
+    have u1 : LexUnit (ds ++ renderSep g1) [Token.int (intValue [] ds)] false := by
+      have := tok_sep (unit_int [] ds (Or.inl rfl) hne1 hd1 hl1) g1 hg1
+      rw [isEmpty_false hg1n] at this
       simpa using this
-    have u2 : LexUnit (zs ++ g2) [Token.int 0] := by
-      have := unit_with_gap (fun g0 hg0 => unit_int [] zs g0 hg0 (Or.inl rfl) hne2 hd2 hl2) g2 hg2
-      rw [hz] at this
+    have u2 : LexUnit (gs ++ renderSep g2) [Token.int (intValue [] gs)] false := by
+      have := tok_sep (unit_int [] gs (Or.inl rfl) hne2 hd2 hl2) g2 hg2
+      rw [isEmpty_false hg2n] at this
       simpa using this
-    have u3 : LexUnit ([82] ++ g3) [Token.kwd kwR] := unit_with_gap (fun g0 hg0 => unit_R g0 hg0) g3 hg3
-    have := LexUnit.append u1 (LexUnit.append u2 u3)
+    have u3 := tok_sep unit_R g3 hg3
+    have := LexUnit.append_free u1 (LexUnit.append_free u2 u3)
     simpa using this
   | .arr g0 items g1, h => by
-    simp only [wf] at h
+    simp only [wf, wfE] at h
     obtain ⟨hg0, hitems, hg1⟩ := h
-    simp only [bytesOf, valueOf, ser]
-    have u0 := LexUnit.append LexUnit.open_bracket (LexUnit.gap g0 hg0)
-    have u1 := lex_list items hitems
-    have u2 := LexUnit.append LexUnit.close_bracket (LexUnit.gap g1 hg1)
-    have := LexUnit.append u0 (LexUnit.append u1 u2)
+    simp only [bytesOf, valueOf, ser, endsReg]
+    have u0 := free_sep LexUnit.open_bracket g0 hg0
+    have u1 := lex_list items g1 hitems hg1
+    have := LexUnit.append_free u0 u1
     simpa using this
   | .dict g0 es g1, h => by
-    simp only [wf] at h
+    simp only [wf, wfE] at h
     obtain ⟨hg0, hes, hg1, _, _⟩ := h
-    simp only [bytesOf, valueOf, ser]
-    have u0 := LexUnit.append LexUnit.dict_open (LexUnit.gap g0 hg0)
-    have u1 := lex_entries es hes
-    have u2 := LexUnit.append LexUnit.dict_close (LexUnit.gap g1 hg1)
-    have := LexUnit.append u0 (LexUnit.append u1 u2)
+    simp only [bytesOf, valueOf, ser, endsReg]
+    have u0 := free_sep LexUnit.dict_open g0 hg0
+    have u1 := lex_entries es g1 hes hg1
+    have := LexUnit.append_free u0 u1
     simpa using this
-theorem lex_list : ∀ (ts : List STree), wfList ts → LexUnit (bytesList ts) (serList (valueList ts))
-  | [], _ => by simpa [bytesList, valueList, serList] using LexUnit.nil
-  | t :: r, h => by
-    simp only [wfList] at h
+/-- array items up to and including `]` and its separator -/
+theorem lex_list : ∀ (ts : List STree) (g1 : List SepItem), wfList ts → sepOK g1 →
+    LexUnit (bytesList ts ++ ([93] ++ renderSep g1)) (serList (valueList ts) ++ [Token.kwd [93]]) false
+  | [], g1, _, hg1 => by
+    simpa [bytesList, valueList, serList] using free_sep LexUnit.close_bracket g1 hg1
+  | t :: r, g1, h, hg1 => by
+    simp only [wfList, wfListE] at h
+    obtain ⟨ht, hr, hadj⟩ := h
     simp only [bytesList, valueList, serList]
-    exact LexUnit.append (lex_tree t h.1) (lex_list r h.2)
-theorem lex_entries : ∀ (es : List (List NameItem × Bytes × STree)), wfEntries es →
-    LexUnit (bytesEntries es) (serEntries (valueEntries es))
-  | [], _ => by simpa [bytesEntries, valueEntries, serEntries] using LexUnit.nil
-  | (k, g, v) :: r, h => by
-    simp only [wfEntries] at h
-    obtain ⟨hk, hg, hv, hr⟩ := h
+    have u1 := lex_tree t ht
+    have u2 := lex_list r g1 hr hg1
+    have := LexUnit.append u1 u2 (fun hreg d _ => by
+      cases r with
+      | nil => simp [bytesList, isDW]
+      | cons t2 r2 =>
+        have := hadj hreg (by simp) (([93] ++ renderSep g1) ++ [d])
+        simpa [List.append_assoc] using this)
+    simpa [List.append_assoc] using this
+/-- dictionary entries up to and including `>>` and its separator -/
+theorem lex_entries : ∀ (es : List (List NameItem × List SepItem × STree)) (g1 : List SepItem),
+    wfEntries es → sepOK g1 →
+    LexUnit (bytesEntries es ++ ([62, 62] ++ renderSep g1)) (serEntries (valueEntries es) ++ [Token.kwd [62, 62]]) false
+  | [], g1, _, hg1 => by
+    simpa [bytesEntries, valueEntries, serEntries] using free_sep LexUnit.dict_close g1 hg1
+  | (k, g, v) :: r, g1, h, hg1 => by
+    simp only [wfEntries, wfEntriesE] at h
+    obtain ⟨hk, hg, hgv, hv, hr⟩ := h
     simp only [bytesEntries, valueEntries, serEntries]
-    have uk : LexUnit ((47 :: renderName k) ++ g) [Token.lit (nameValue k)] :=
-      unit_with_gap (fun g0 hg0 => unit_name k g0 hg0 hk) g hg
-    have := LexUnit.append uk (LexUnit.append (lex_tree v hv) (lex_entries r hr))
-    simpa using this
+    have uk := tok_sep (unit_name k (fun i hi => (hk i hi).1)) g hg
+    have uv := lex_tree v hv
+    have ur := lex_entries r g1 hr hg1
+    -- what follows the value begins with `/` (next key) or `>` (end of the dictionary)
+    have uvr := LexUnit.append uv ur (fun _ d _ => by
+      cases r with
+      | nil => simp [bytesEntries, isDW]
+      | cons e r2 => obtain ⟨k2, g2, v2⟩ := e; simp [bytesEntries, isDW])
+    have := LexUnit.append uk uvr (fun hreg d _ => by
+      have hge : g = [] := by cases g <;> simp_all
+      have := hgv hge ((bytesEntries r ++ ([62, 62] ++ renderSep g1)) ++ [d])
+      simpa [List.append_assoc] using this)
+    simpa [List.append_assoc] using this
 end
 
 mutual
-theorem clean_tree : ∀ (t : STree), wf t → clean (valueOf t)
+theorem clean_tree {e : Bool} : ∀ (t : STree), wfE e t → clean (valueOf t)
   | .null _, _ => by simp [valueOf, clean]
   | .bool _ _, _ => by simp [valueOf, clean]
   | .int _ _ _, _ => by simp [valueOf, clean]
@@ -332,25 +442,86 @@ theorem clean_tree : ∀ (t : STree), wf t → clean (valueOf t)
   | .hex _ _, _ => by simp [valueOf, clean]
   | .ref _ _ _ _ _, _ => by simp [valueOf, clean]
   | .arr _ items _, h => by
-    simp only [wf] at h
+    simp only [wf, wfE] at h
     simp only [valueOf, clean]
     exact clean_list items h.2.1
   | .dict _ es _, h => by
-    simp only [wf] at h
+    simp only [wf, wfE] at h
     simp only [valueOf, clean]
     exact ⟨clean_entries es h.2.1, h.2.2.2.1, h.2.2.2.2⟩
-theorem clean_list : ∀ (ts : List STree), wfList ts → cleanList (valueList ts)
+theorem clean_list {e : Bool} : ∀ (ts : List STree), wfListE e ts → cleanList (valueList ts)
   | [], _ => by simp [valueList, cleanList]
   | t :: r, h => by
-    simp only [wfList] at h
+    simp only [wfList, wfListE] at h
     simp only [valueList, cleanList]
-    exact ⟨clean_tree t h.1, clean_list r h.2⟩
-theorem clean_entries : ∀ (es : List (List NameItem × Bytes × STree)), wfEntries es → cleanEntries (valueEntries es)
+    exact ⟨clean_tree t h.1, clean_list r h.2.1⟩
+theorem clean_entries {e : Bool} : ∀ (es : List (List NameItem × List SepItem × STree)), wfEntriesE e es → cleanEntries (valueEntries es)
   | [], _ => by simp [valueEntries, cleanEntries]
   | (k, g, v) :: r, h => by
-    simp only [wfEntries] at h
+    simp only [wfEntries, wfEntriesE] at h
     simp only [valueEntries, cleanEntries]
-    exact ⟨clean_tree v h.2.2.1, clean_entries r h.2.2.2⟩
+    exact ⟨clean_tree v h.2.2.2.1, clean_entries r h.2.2.2.2⟩
 end
+
+/-! ### an indirect object `n g obj … endobj` -/
+
+/-- the spelling of an indirect object around a spelled tree -/
+structure ObjSpelling where
+  ds : Bytes
+  g1 : List SepItem
+  gs : Bytes
+  g2 : List SepItem
+  g3 : List SepItem
+  body : STree
+  g4 : List SepItem
+
+def ObjSpelling.bytes (o : ObjSpelling) : Bytes :=
+  (o.ds ++ renderSep o.g1) ++ ((o.gs ++ renderSep o.g2) ++ ((kwObj ++ renderSep o.g3) ++
+    (bytesOf o.body ++ (kwEndobj ++ renderSep o.g4))))
+
+def ObjSpelling.wf (o : ObjSpelling) : Prop :=
+  digitsOK o.ds ∧ sepOK o.g1 ∧ o.g1 ≠ [] ∧ digitsOK o.gs ∧ sepOK o.g2 ∧ o.g2 ≠ [] ∧ sepOK o.g3 ∧
+    (o.g3 = [] → ∀ rest, isDW ((bytesOf o.body ++ rest).headD 0) = true) ∧
+    Roundtrip.wf o.body ∧ endsReg o.body = false ∧ sepOK o.g4
+
+theorem alpha_obj : isAlpha 111 = true ∧ ∀ x ∈ ([98, 106] : Bytes), isAlpha x = true := by
+  refine ⟨by decide, ?_⟩; intro x hx; simp at hx; rcases hx with rfl | rfl <;> decide
+theorem alpha_endobj : isAlpha 101 = true ∧ ∀ x ∈ ([110, 100, 111, 98, 106] : Bytes), isAlpha x = true := by
+  refine ⟨by decide, ?_⟩; intro x hx; simp at hx; rcases hx with rfl | rfl | rfl | rfl | rfl <;> decide
+
+theorem lex_obj (o : ObjSpelling) (h : o.wf) :
+    LexUnit o.bytes
+      ([Token.int (intValue [] o.ds), Token.int (intValue [] o.gs), Token.kwd kwObj] ++
+        (ser (valueOf o.body) ++ [Token.kwd kwEndobj])) o.g4.isEmpty := by
+  obtain ⟨⟨hne1, hd1, hl1⟩, hg1, hg1n, ⟨hne2, hd2, hl2⟩, hg2, hg2n, hg3, hg3d, hwf, hreg, hg4⟩ := h
+  have u1 : LexUnit (o.ds ++ renderSep o.g1) [Token.int (intValue [] o.ds)] false := by
+    have := tok_sep (unit_int [] o.ds (Or.inl rfl) hne1 hd1 hl1) o.g1 hg1
+    rw [isEmpty_false hg1n] at this
+    simpa using this
+  have u2 : LexUnit (o.gs ++ renderSep o.g2) [Token.int (intValue [] o.gs)] false := by
+    have := tok_sep (unit_int [] o.gs (Or.inl rfl) hne2 hd2 hl2) o.g2 hg2
+    rw [isEmpty_false hg2n] at this
+    simpa using this
+  have u3 : LexUnit (kwObj ++ renderSep o.g3) [Token.kwd kwObj] o.g3.isEmpty := by
+    have := unit_keyword 111 [98, 106] alpha_obj.1 alpha_obj.2
+    have u : LexUnit kwObj [Token.kwd kwObj] true := by simpa [kwTrue, kwFalse, kwObj] using this
+    exact tok_sep u o.g3 hg3
+  have u4 : LexUnit (bytesOf o.body) (ser (valueOf o.body)) false := by
+    have := lex_tree o.body hwf
+    rwa [hreg] at this
+  have u5 : LexUnit (kwEndobj ++ renderSep o.g4) [Token.kwd kwEndobj] o.g4.isEmpty := by
+    have := unit_keyword 101 [110, 100, 111, 98, 106] alpha_endobj.1 alpha_endobj.2
+    have u : LexUnit kwEndobj [Token.kwd kwEndobj] true := by simpa [kwTrue, kwFalse, kwEndobj] using this
+    exact tok_sep u o.g4 hg4
+  have u45 := LexUnit.append_free u4 u5
+  have u345 := LexUnit.append u3 u45 (fun hreg3 d _ => by
+    have hge : o.g3 = [] := by
+      cases hg : o.g3 with
+      | nil => rfl
+      | cons _ _ => rw [hg] at hreg3; simp at hreg3
+    have := hg3d hge ((kwEndobj ++ renderSep o.g4) ++ [d])
+    simpa [List.append_assoc] using this)
+  have := LexUnit.append_free u1 (LexUnit.append_free u2 u345)
+  simpa [ObjSpelling.bytes, List.append_assoc] using this
 
 end PdfVerif.Roundtrip
